@@ -55,6 +55,7 @@ pub fn gen_cgr_case(rng: &mut Rng, tier: &str, prop: &str, k: usize) -> Case {
         min_len: 0,
         dup_pct: 4,
             tab_desc_pct: 0,
+            utf8_id_pct: 0,
             dup_id_pct: 0,
     };
     let mut records = g.gen(rng);
